@@ -20,6 +20,15 @@ POLICIES = ["on_t_sample", "on_iteration", "on_interval", "no_sampling"]
 COST = {"I": 1, "N1": 1, "N2": 2, "N3": 3, "R0": 1, "R1": 1, "R2": 2, "R3": 3, "RU": 10 ** 6, "N0": 0, "O": 0}
 
 
+def cost(op):
+    """Iterations an operation is designed to consume (N<k> = iterate_n(k) for any k)."""
+    if op in COST:
+        return COST[op]
+    if op[0] == "N":
+        return int(op[1:])
+    raise KeyError(op)
+
+
 def script_spec(engine, gtype, policy, n, seed=11, variant=None):
     """variant: None | 'units' (non-default script units incl. a non-molecule quantity unit)
                      | 'redist' (real-valued initial state with an odd number of entries >= 100, default processing)"""
@@ -74,7 +83,7 @@ def schedules(n, ops=("I", "N1", "N2", "N3", "R0", "R1", "R2", "R3", "RU")):
 
     def rec(r, acc):
         for op in ops:
-            c = COST[op]
+            c = cost(op)
             if r - c <= 0:
                 out.append(acc + [op])
             else:
@@ -151,7 +160,7 @@ def drive(e, ops, pr, n, fixed_dt=None):
             e.get_output()          # a look at the trajectory so far must not change what comes later
             r = True
         elif op[0] == "N":
-            r = e.iterate_n(int(op[1]))
+            r = e.iterate_n(int(op[1:]))
         elif op == "R0":
             r = e.run(0)
         elif op == "RU":
@@ -213,7 +222,7 @@ def check_schedule(case):
         return [("C08:schedule:unexpected-exception", "%s: %s" % (type(ex).__name__, ex))]
     remaining = n
     for op, r, consumed in log:
-        c = COST[op]
+        c = cost(op)
         exp_consumed = min(c, remaining) if remaining > 0 else 0
         remaining_after = remaining - (consumed if (consumed is not None and op[0] == "R") else c)
         exp_ret = remaining_after > 0
@@ -497,6 +506,13 @@ def check_edited(case):
         elif what == "kf":
             net.reactions[0].kf = 0.3
             sc2["system"]["reactions"][0]["kf"] = 0.3
+        elif what == "callers-system":
+            # the script was built FROM a system object the caller keeps using: editing that object afterwards must not
+            # reach the script (sc2 stays the original description)
+            sysobj = models.build_system(sc["system"])
+            script = models.build_script(sc, system=sysobj)
+            sysobj.set_state(0, 0, 77.0)
+            sysobj.set_chemostat(1, 1, True)
         direct = models.build_script(sc2)
         if what in ("volume",):
             # the state was given explicitly, so only the geometry differs between the two descriptions
@@ -619,6 +635,12 @@ def gen_cases(tier, seed0):
             for pos in range(1, len(ops) + 1):
                 peek.append({"sub": "n0", "engine": e, "gtype": g, "policy": "on_iteration", "n": 3, "ops": ops[:pos] + ["O"] + ops[pos:]})
     cases += peek
+    # large batches: iterate_n(k) is a batch of exactly k iterations also for k in the thousands
+    big = []
+    for (e, g) in [k for k in KINDS if k[0] != "gillespie"]:
+        for ops in (["N999", "N1", "N1000", "N1001"], ["N1001", "N2000"], ["N2500", "I", "N500"], ["I", "N3000"], ["N1500", "N1500"]):
+            big.append({"sub": "schedule", "engine": e, "gtype": g, "policy": "on_t_sample", "n": 3001, "ops": ops})
+    cases += big
     hist = []
     for prev in [None] + [list(k) for k in KINDS]:
         for this in KINDS:
@@ -661,7 +683,7 @@ def gen_cases(tier, seed0):
                 if how in ("set_state", "set_chemostat", "state-array-item"):
                     stored.append({"sub": "stored", "engine": e, "gtype": g, "policy": p, "mutation": how, "side": "trajectory-system-edited"})
     cases += stored
-    edited = [{"sub": "edited", "engine": e, "gtype": g, "edit": w} for (e, g) in KINDS for w in ("volume", "edge", "D", "kf")
+    edited = [{"sub": "edited", "engine": e, "gtype": g, "edit": w} for (e, g) in KINDS for w in ("volume", "edge", "D", "kf", "callers-system")
               if not (w == "edge" and g != "graph")]
     cases += edited
     wrap = []
@@ -681,6 +703,7 @@ def gen_cases(tier, seed0):
               nsch * len(scripts)),
              ("driver schedules of a 7-iteration run (%d each) x 3 scripts" % (len(n7) // 3 if n7 else 0), len(n7)),
              ("iterate_n(0) inserted at every position of every schedule of a 2-iteration run x 6 kinds", len(n0)),
+             ("large batches: 5 schedules of iterate_n(k) with k up to 3000 on a 3001-iteration run x 4 fixed-step kinds: each batch advances exactly k steps", len(big)),
              ("get_output() inserted at every later position of every schedule (iterate / iterate_n(2) / run(0) / run-to-completion) of a 3-iteration run x 6 kinds", len(peek)),
              ("process histories: (previous kind or none) x this kind x same/new object x previous finalized or not x {default, non-default output units, redistributed real-valued state, other boundary setting, species order, denormal amounts, other geometry}, 3 repetitions of the same script object", len(hist)),
              ("seeds: rng_seed=None drawn under random.seed(r), stored script reproduces, neighbour seed differs (stochastic) / "
